@@ -357,7 +357,7 @@
         scm_kinds_body(0);
     }
 
-    // @obligation name=e5_bt_scm_body_charset props=C01,C03,C13 fn=classicalbacktrack::MatchAttempter::with_scm_loop_impl,classicalbacktrack::MatchAttempter::with_scm_compute_max kind=bounded bound="2-char ASCII haystack; body kind charset with symbolic operand (a Char operand ranges over every u32); min in {0,1}, max in {1,2}; UTF-8 and ASCII inputs" min_checks=300 w=2 timeout=900
+    // @obligation name=e5_bt_scm_body_charset props=C01:t,C03:t,C13:t fn=classicalbacktrack::MatchAttempter::with_scm_loop_impl,classicalbacktrack::MatchAttempter::with_scm_compute_max kind=bounded bound="2-char ASCII haystack; body kind charset with symbolic operand (a Char operand ranges over every u32); min in {0,1}, max in {1,2}; UTF-8 and ASCII inputs" min_checks=300 w=2 timeout=900
     // with_scm_loop_impl/with_scm_compute_max for body kind charset: Some((pos_after_min, pos_after_run)); a loop with min == 0
     // never fails whatever the operand (a Char the input's element type cannot represent matches zero times), computing the
     // maximal run never fails, and the ASCII input agrees with the UTF-8 input.
@@ -367,7 +367,7 @@
         scm_kinds_body(1);
     }
 
-    // @obligation name=e5_bt_scm_body_bracket props=C01,C03,C13 fn=classicalbacktrack::MatchAttempter::with_scm_loop_impl,classicalbacktrack::MatchAttempter::with_scm_compute_max kind=bounded bound="2-char ASCII haystack; body kind bracket with symbolic operand (a Char operand ranges over every u32); min in {0,1}, max in {1,2}; UTF-8 and ASCII inputs" min_checks=300 w=2 timeout=900
+    // @obligation name=e5_bt_scm_body_bracket props=C01:t,C03,C13:t fn=classicalbacktrack::MatchAttempter::with_scm_loop_impl,classicalbacktrack::MatchAttempter::with_scm_compute_max kind=bounded bound="2-char ASCII haystack; body kind bracket with symbolic operand (a Char operand ranges over every u32); min in {0,1}, max in {1,2}; UTF-8 and ASCII inputs" min_checks=300 w=2 timeout=900
     // with_scm_loop_impl/with_scm_compute_max for body kind bracket: Some((pos_after_min, pos_after_run)); a loop with min == 0
     // never fails whatever the operand (a Char the input's element type cannot represent matches zero times), computing the
     // maximal run never fails, and the ASCII input agrees with the UTF-8 input.
